@@ -164,6 +164,16 @@ def print_assumptions(pid):
     return rc == 0, closed, axioms, out
 
 
+def coqchk(pid):
+    """Independent re-check of props/<pid>.vo and everything it depends on (thorough tier). Returns (ok, summary)."""
+    rc, out = sh(["coqchk", "-o", "-silent", "-Q", "theories", "WP", "-Q", "gen", "WPGen", f"WP.props.{pid}"], 1500, cwd=COQ)
+    m = re.search(r"\* Axioms:\s*(.*?)\n\s*\n", out, flags=re.S)
+    axioms = m.group(1).strip() if m else "?"
+    bad = [k for k in ("type-in-type", "unsafe (co)fixpoints", "positivity is assumed")
+           if not re.search(re.escape(k) + r":\s*<none>", out)]
+    return rc == 0 and axioms == "<none>" and not bad, {"rc": rc, "axioms": axioms, "unsafe": bad}
+
+
 def coqc_error_summary(log):
     m = re.search(r'File "([^"]+)", line (\d+), characters [^\n]*\n(Error:.*?)(?:\n\n|\nmake|\Z)', log, flags=re.S)
     if m:
